@@ -40,15 +40,6 @@ func Clone[M ~map[K]V, K comparable, V any](m M) M {
 	return newMap
 }
 
-// Clear will delete all key-value pairs from a map, rendering it empty.
-func Clear[M ~map[K]V, K comparable, V any](m M) {
-	// Relies on the compiler optimization introduced in Go v1.11
-	// https://go.dev/doc/go1.11#performance-compiler
-	for k := range m {
-		delete(m, k)
-	}
-}
-
 // HasKey returns true if the given map has a value on the given key.
 func HasKey[M ~map[K]V, K comparable, V any](m M, key K) bool {
 	_, ok := m[key]
